@@ -867,7 +867,42 @@ func ruleNatKey(c *Ctx, a *udpAnchors) {
 	p := c.P
 	m := a.m
 	// addrOf: v == X.String() on a net.Addr → the single origin of X
-	addrOf := func(v ssa.Value) (ssa.Value, bool) {
+	var addrOf func(v ssa.Value) (ssa.Value, bool)
+	addrOf = func(v ssa.Value) (ssa.Value, bool) {
+		// a key helper (natKey(addr) string { return addr.String() }): judged at this call, with the argument it is given
+		if call, isC := p.Resolve(v).(*ssa.Call); isC {
+			if h := call.Call.StaticCallee(); h != nil && p.InRepo(h) && len(h.Blocks) > 0 && h.Signature.Results().Len() == 1 {
+				idx := -1
+				okH := true
+				for _, r := range eng.Returns(h) {
+					sc, isS := p.Resolve(r.Results[0]).(*ssa.Call)
+					if !isS || eng.CalleeName(&sc.Call) != "(net.Addr).String" {
+						okH = false
+						continue
+					}
+					pa, isP := p.Resolve(sc.Call.Value).(*ssa.Parameter)
+					if !isP {
+						okH = false
+						continue
+					}
+					for i, q := range h.Params {
+						if q == pa {
+							if idx >= 0 && idx != i {
+								okH = false
+							}
+							idx = i
+						}
+					}
+				}
+				if okH && idx >= 0 && idx < len(call.Call.Args) {
+					os := p.Origins(call.Call.Args[idx], eng.Plain)
+					if len(os) == 1 {
+						return baseRoot(os[0]), true
+					}
+					return nil, false
+				}
+			}
+		}
 		var found ssa.Value
 		ok, _ := p.AllFrom(v, deepF, func(x ssa.Value) bool {
 			call, isC := x.(*ssa.Call)
